@@ -262,6 +262,25 @@ PROPS['C15'] = {
 }
 for _u in PROPS['C15']['units']:
     PROPS['C07']['units'].append(_u)
+PROPS['C12'] = {
+    'units': ['fmt_go', 'fmt_swift', 'fmt_python', 'contains'],
+    'title': 'every helper name typeshare introduces is defined or imported (bookkeeping kernel)',
+    'technique': 'additional Verus postconditions on the type-expression translators of Go, Swift and Python (the same verbatim extraction as C05): '
+                 'whenever the translation reaches a built-in type whose spelling uses a helper, the helper has been recorded; plus contracts on '
+                 'RustType::contains_type / SpecialRustType::contains_type / id, on which Scala\'s alias decision rests',
+    'level_text': 'For every type expression, configuration and generic scope: after format_type answers Ok, Go has recorded the import of "time" if '
+                  'the expression reaches OffsetDateTime; Swift has raised the CodableVoid flag if it reaches (); Python has recorded typing.List / '
+                  'typing.Optional / typing.Dict / datetime.datetime for every sequence / Option / map / OffsetDateTime it reaches - "reaches" meaning '
+                  'at any depth and not hidden behind a mapped type - and recorded helpers are never lost again. contains_type(name) is true whenever a '
+                  'built-in type spelled `name` occurs anywhere in the expression (lemma), which is what Scala asks for each unsigned integer name.',
+    'level_note': 'Kernel at the level of what is RECORDED. That the recorded imports / the CodableVoid definition / the Scala package object / '
+                  'TypeScript\'s reviver footer are then WRITTEN, that names used on other paths (BaseModel, Field, Literal, TypeVar, json.) are imported, '
+                  'and Scala::unsigned_integer_used\'s collection of the file\'s types (iterator chains) are not proved: bounded stand-in helper-search. '
+                  'Assumed: add_import / add_imports record and only add (entry-API stubs); AtomicBool::store modelled as an update (sequential code).',
+    'design_ref': 'DESIGN.md section 10.12',
+    'bounded': ['helpersearch'],
+}
+PROPS['C07']['units'].append('contains')
 PROPS['C03']['bounded'] = ['merge', 'tos']
 PROPS['C06']['bounded'] = ['merge', 'cli_determinism']
 PROPS['C11']['bounded'] = ['topo', 'deps']
@@ -272,7 +291,7 @@ PROPS['C18']['bounded'] = ['kint']
 PROPS['C20']['bounded'] = ['cfg_all', 'cli_config']
 PROPS['C07']['bounded'] = ['rename', 'topo', 'cli_robust']
 
-NOT_APPLICABLE = {k: NA_TEXT for k in ['C08', 'C10', 'C12', 'C14', 'C19']}
+NOT_APPLICABLE = {k: NA_TEXT for k in ['C08', 'C10', 'C14', 'C19']}
 
 ALL_UNITS = sorted({u for p_ in PROPS.values() for u in p_.get('units', [])})
 ALL_KANI = ['kint']
@@ -329,9 +348,21 @@ def native_harness(kind, workdir):
     return (exe if ok else None), err
 
 
+def _run_retry(cmd, **kw):
+    """subprocess.run that retries ETXTBSY: the checks run units in threads; a script / binary one thread has just written can still be held
+    open (for the instant between fork and exec) by a child another thread is spawning"""
+    for attempt in range(8):
+        try:
+            return subprocess.run(cmd, **kw)
+        except OSError as ex:
+            if ex.errno != 26 or attempt == 7:
+                raise
+            time.sleep(0.05 * (attempt + 1))
+
+
 def run_native(exe, args, timeout=120):
     try:
-        pr = subprocess.run([exe] + list(args), capture_output=True, text=True, timeout=timeout)
+        pr = _run_retry([exe] + list(args), capture_output=True, text=True, timeout=timeout)
     except subprocess.TimeoutExpired:
         return {'found': False, 'error': 'native search timed out'}
     for line in pr.stdout.splitlines():
@@ -388,7 +419,7 @@ def replay(pid, path, work):
         mod = importlib.import_module(wit['kind'])
         inp = wit['input'].get('input', wit['input'])
         args = mod.replay_args(inp) if hasattr(mod, 'replay_args') else [json.dumps(inp)]
-        pr = subprocess.run([exe, 'check'] + args, capture_output=True, text=True, timeout=60)
+        pr = _run_retry([exe, 'check'] + args, capture_output=True, text=True, timeout=60)
         print(pr.stdout.strip())
         return 1 if 'WITNESS ' in pr.stdout else 0
     finally:
